@@ -560,7 +560,7 @@ func main() {
 	if r.Quick() {
 		subAlpha = []string{"PA", "DA", "GA", "MV", "NT", "FL"}
 	}
-	debug.SetGCPercent(400) // executeBlock allocates a 4 MB overlay per block
+	_ = debug.SetGCPercent
 	softDeadline = time.Now().Add(time.Duration(0.7 * float64(budget(r))))
 	maxCalls := 1
 	bodyAlpha := []string{"PA", "PB", "DA", "MV", "NT", "FL", "C1", "C2"}
@@ -568,9 +568,11 @@ func main() {
 		bodyAlpha = []string{"PA", "PB", "DA", "DB", "GA", "MV", "NT", "FL", "C1", "C2", "C3"}
 	}
 	bodies := probe.Bodies(bodyAlpha, 2, "")
-	body3Alpha := bodyAlpha
-	if r.Quick() {
-		body3Alpha = []string{"PA", "DA", "MV", "FL", "C2"}
+	// real ExecuteBlock costs ~4 ms per block on this box whatever the parallelism (4 MB overlay per block is
+	// page-fault bound), so the triple space uses a smaller body alphabet
+	body3Alpha := []string{"PA", "DA", "MV", "FL"}
+	if r.Thorough() {
+		body3Alpha = []string{"PA", "PB", "DA", "MV", "NT", "FL", "C2"}
 	}
 	bodies3 := probe.Bodies(body3Alpha, 2, "")
 	cov := map[string]any{}
@@ -675,41 +677,44 @@ func main() {
 			}
 			return out
 		}
-		mk := func(idx ...int) [][]probe.Op { return mkFrom(bodies, idx...) }
 		var nb2, nb3 int64
+		b2 := bodies
+		if pi > 0 && r.Quick() {
+			b2 = bodies3 // second pre-state: reduced body set in the quick tier
+		}
 		capped := parallel(pool, func(emit func(any) bool) {
-			for i := range bodies {
-				if !emit(i) {
-					return
+			for i := range b2 {
+				for j := range b2 {
+					if !emit([2]int{i, j}) {
+						return
+					}
 				}
 			}
 		}, func(w *probe.Worker, job any) {
-			i := job.(int)
-			for j := range bodies {
-				runBlock(w, "B2", pre, mk(i, j))
-				atomic.AddInt64(&nb2, 1)
-			}
+			ij := job.([2]int)
+			runBlock(w, "B2", pre, mkFrom(b2, ij[0], ij[1]))
+			atomic.AddInt64(&nb2, 1)
 		})
 		if capped {
 			r.Capped("spaceB2/" + tag)
 		}
 		addCount("B_blocks_of_2", nb2)
 		lap("B2")
-		if pi == 0 || r.Thorough() {
+		if pi == 0 {
 			capped = parallel(pool, func(emit func(any) bool) {
 				for i := range bodies3 {
 					for j := range bodies3 {
-						if !emit([2]int{i, j}) {
-							return
+						for k := range bodies3 {
+							if !emit([3]int{i, j, k}) {
+								return
+							}
 						}
 					}
 				}
 			}, func(w *probe.Worker, job any) {
-				ij := job.([2]int)
-				for k := range bodies3 {
-					runBlock(w, "B3", pre, mkFrom(bodies3, ij[0], ij[1], k))
-					atomic.AddInt64(&nb3, 1)
-				}
+				x := job.([3]int)
+				runBlock(w, "B3", pre, mkFrom(bodies3, x[0], x[1], x[2]))
+				atomic.AddInt64(&nb3, 1)
 			})
 			if capped {
 				r.Capped("spaceB3/" + tag)
